@@ -815,3 +815,94 @@ func ruleN5(c *Ctx) {
 		R.OK("N5", "pubsub.(*QueueOptions).Validate/no-dependent-defaults", p.Position(f.Pos()), "no default depends on another defaulted field")
 	}
 }
+
+// ---------------------------------------------------------------- W9b
+
+// ruleW9b: inside the Queue iterator's wait loop, "closed → io.EOF" is the last
+// thing looked at before parking: nothing that can still discover an unseen
+// item (a cursor reset) comes after it.
+func ruleW9b(c *Ctx) {
+	R := c.R
+	p := c.P
+	R.Rule("W9b", "in the Queue iterator's wait loop the closed test that ends the iteration comes after every cursor reset in the loop body, and a reset that found items leaves the loop (closed is reported only when there is nothing left to take)", 1)
+	f := p.FuncNamed("pubsub.(*Queue).Producer")
+	at := "pubsub.(*Queue).Producer$1/closed-last"
+	if f == nil || len(f.Lits) == 0 {
+		R.Fail("W9b", at, "-", "not found")
+		return
+	}
+	lit := f.Lits[0]
+	info := lit.Info()
+	var loop *ast.ForStmt
+	walkNoLit(lit.Body, func(x ast.Node) bool {
+		if fs, ok := x.(*ast.ForStmt); ok && loop == nil {
+			hasWait := false
+			ast.Inspect(fs.Body, func(y ast.Node) bool {
+				if call, ok := y.(*ast.CallExpr); ok && strings.Contains(callName(info, call), "unsafeWaitFor") {
+					hasWait = true
+				}
+				return true
+			})
+			if hasWait {
+				loop = fs
+			}
+		}
+		return true
+	})
+	if loop == nil {
+		R.Undecided("W9b", at, p.Position(f.Pos()), "no wait loop found in the Queue iterator")
+		return
+	}
+	var closedTest token.Pos
+	var lastReset token.Pos
+	var cursor types.Object
+	// the cursor is the variable the loop condition dereferences
+	ast.Inspect(loop.Cond, func(y ast.Node) bool {
+		if se, ok := y.(*ast.SelectorExpr); ok && se.Sel.Name == "link" && cursor == nil {
+			if id, ok := ast.Unparen(se.X).(*ast.Ident); ok {
+				cursor = info.Uses[id]
+			}
+		}
+		return true
+	})
+	resetThenLeaves := true
+	walkNoLit(loop.Body, func(x ast.Node) bool {
+		switch t := x.(type) {
+		case *ast.IfStmt:
+			if se, ok := ast.Unparen(t.Cond).(*ast.SelectorExpr); ok && se.Sel.Name == "closed" && containsReturn(t.Body) && closedTest == 0 {
+				closedTest = t.Pos()
+			}
+		case *ast.AssignStmt:
+			if len(t.Lhs) == 1 {
+				if id, ok := ast.Unparen(t.Lhs[0]).(*ast.Ident); ok && cursor != nil && info.Uses[id] == cursor {
+					lastReset = t.Pos()
+					// the statements after the reset in its block: `if cursor.link != nil { break }`
+					if blk, ok := p.Parent(t).(*ast.BlockStmt); ok {
+						found := false
+						for _, s := range blk.List {
+							if s.Pos() <= t.Pos() {
+								continue
+							}
+							if ifs, ok := s.(*ast.IfStmt); ok && strings.Contains(exprStr(ifs.Cond), ".link != nil") {
+								for _, b := range ifs.Body.List {
+									if br, ok := b.(*ast.BranchStmt); ok && br.Tok == token.BREAK {
+										found = true
+									}
+								}
+							}
+							if br, ok := s.(*ast.BranchStmt); ok && br.Tok == token.CONTINUE {
+								found = true // re-evaluates the loop condition, which looks at the new cursor
+							}
+						}
+						if !found {
+							resetThenLeaves = false
+						}
+					}
+				}
+			}
+		}
+		return true
+	})
+	ok := closedTest != 0 && (lastReset == 0 || lastReset < closedTest) && resetThenLeaves
+	R.Check(ok, "W9b", at, p.Position(loop.Pos()), "cursor reset, then closed → EOF, then wait", "the Queue iterator tests `closed` before it has reset a stale cursor (or does not look at the reset cursor's successor): when the cursor's entry was removed, the queue refilled and was then closed, the iterator reports io.EOF although unseen, never-removed items are queued")
+}
